@@ -83,3 +83,50 @@ fn o12_1_size_is_max_cell() {
     std::mem::forget(cb);
     std::mem::forget(settings);
 }
+
+// ---------------------------------------------------------------------------
+// C04: cells are (display column, row) of the non-blank, non-filler characters.
+// The quoted-text extraction (escape_line: pom parser, out of Kani's reach) is
+// stubbed by what it returns for a row without quotes: no escaped text, the row
+// unchanged.  Rows containing a double quote are excluded by assumption.
+
+fn stub_escape_line(_line: usize, raw: &str) -> (Vec<(Cell, String)>, String) {
+    let mut s = String::with_capacity(16);
+    s.push_str(raw);
+    (Vec::with_capacity(1), s)
+}
+
+//@ harness: o4_5_cells_are_columns props=C04,C15 tier=quick obl=O4.5 timeout=2400 mem=24
+//@ desc: From<StringBuffer> for CellBuffer on one row of 3 symbolic characters (any scalar except the double quote; NUL fillers and blanks included): the buffer holds exactly the non-blank, non-NUL characters, each at the column equal to its index in the column-expanded row (so a double-width character followed by its NUL filler keeps what follows at the right display column); escape_line stubbed by identity (rows without quotes)
+//@ encodes: From<StringBuffer> for CellBuffer
+#[kani::proof]
+#[kani::unwind(14)]
+#[kani::stub(crate::buffer::cell_buffer::CellBuffer::escape_line, stub_escape_line)]
+fn o4_5_cells_are_columns() {
+    let cs: [char; 3] = [kani::any(), kani::any(), kani::any()];
+    kani::assume(cs[0] != '"' && cs[1] != '"' && cs[2] != '"');
+    let mut row: Vec<char> = Vec::with_capacity(3);
+    row.push(cs[0]);
+    row.push(cs[1]);
+    row.push(cs[2]);
+    let mut sb = StringBuffer::new();
+    sb.push(row);
+    let cb = CellBuffer::from(sb);
+    let mut expected = 0;
+    let mut i = 0;
+    while i < 3 {
+        let keep = cs[i] != '\0' && !cs[i].is_whitespace();
+        let got = cb.get(&Cell::new(i as i32, 0));
+        if keep {
+            expected += 1;
+            assert!(got == Some(&cs[i]), "O4.5 a non-blank character is stored at its own display column");
+        } else {
+            assert!(got.is_none(), "O4.5 blanks and NUL fillers are not cells");
+        }
+        i += 1;
+    }
+    kani::cover!(cs[1] == '\0' && expected == 2, "wide char, filler, char");
+    assert!(cb.len() == expected, "O4.5 no other cell is created");
+    assert!(cb.escaped_text.len() == 0, "O4.5 no quoted text without quotes");
+    std::mem::forget(cb);
+}
